@@ -56,7 +56,10 @@ func init() {
 			{Name: "writer-reset-keeps-counter", File: "bfe_bufio/bufio.go", Old: "	b.wr = w\n	b.TotalWrite = 0\n", New: "	b.wr = w\n", Expect: "Writer.Reset"},
 			{Name: "fill-stops-sliding", File: "bfe_bufio/bufio.go", Old: "		copy(b.buf, b.buf[b.r:b.w])\n		b.w -= b.r\n		b.r = 0\n", New: "		copy(b.buf, b.buf[b.r:b.w])\n", Expect: "fill-summary|Reader.fill"},
 			{Name: "foreign-counter-write", File: "bfe_http/request.go", Old: "	totalRead := b.TotalRead\n", New: "	b.TotalRead = 0\n	totalRead := b.TotalRead\n", Expect: "counter-writers|Reader.TotalRead"},
-			{Name: "silent-fix-readslice", File: "bfe_bufio/bufio.go", Old: "			b.r = n + i + 1\n\n			b.TotalRead += i + 1\n", New: "			b.r = n + i + 1\n\n			b.TotalRead += n + i + 1\n", Silent: true},
+			{Name: "readslice-after-fill-undercount", File: "bfe_bufio/bufio.go", Old: "			b.TotalRead += n + i + 1\n", New: "			b.TotalRead += i + 1\n", Expect: "lockstep|Reader.ReadSlice:return#3"},
+			{Name: "readline-cr-putback-uncounted", File: "bfe_bufio/bufio.go", Old: "			b.r--\n			if b.TotalRead > 0 {\n				b.TotalRead--\n			}\n", New: "			b.r--\n", Expect: "lockstep|Reader.ReadLine:return#1"},
+			{Name: "readfrom-flush-error-uncounted", File: "bfe_bufio/bufio.go", Old: "				b.TotalWrite += int(n)\n				return n, err1\n", New: "				return n, err1\n", Expect: "lockstep|Writer.ReadFrom:return#2"},
+			{Name: "silent-readslice-counter-first", File: "bfe_bufio/bufio.go", Old: "			b.r = n + i + 1\n\n			b.TotalRead += n + i + 1\n", New: "			consumed := n + i + 1\n			b.TotalRead += consumed\n			b.r = consumed\n", Silent: true},
 			{Name: "silent-reorder-and-rename", File: "bfe_bufio/bufio.go", Old: "	c = b.buf[b.r]\n	b.r++\n	b.lastByte = int(c)\n\n	b.TotalRead += 1\n", New: "	b.TotalRead++\n	next := b.buf[b.r]\n	c = next\n	b.lastByte = int(c)\n	b.r = b.r + 1\n", Silent: true},
 		},
 	})
